@@ -50,10 +50,11 @@ def _recv(fd: int):
 
 
 class Result(typing.NamedTuple):
-    status: str  # ok | exc | crashed
+    status: str  # ok | exc | crashed | paused | died
     value: typing.Any
     exc: typing.Optional[str]
     oplog: list
+    meta: dict = {}  # e.g. {'listings': number of tracked directory listings the operation made}
 
     @property
     def ok(self) -> bool:
@@ -155,9 +156,10 @@ class Child:
             disk.begin(crash, pause)
             try:
                 value = ops[name](ctx, **args)
-                reply = ('ok', value, None, disk.end())
+                reply = ('ok', value, None, disk.end(), {'listings': disk.listings})
             except Exception as err:  # pylint: disable=broad-except
-                reply = ('exc', f'{type(err).__name__}: {err}'[:500], type(err).__name__, disk.end())
+                reply = ('exc', f'{type(err).__name__}: {err}'[:500], type(err).__name__, disk.end(),
+                         {'listings': disk.listings})
             _send(wfd, reply)
 
     def call(self, name: str, args: typing.Optional[dict] = None, crash: typing.Optional[dict] = None,
@@ -178,10 +180,10 @@ class Child:
         if reply is None:
             self._reap()
             return Result('died', None, 'child exited without a reply', [])
-        status, value, exc, oplog = reply
+        status, value, exc, oplog, *rest = reply
         if status == 'crashed':
             self._reap()
-        return Result(status, value, exc, oplog)
+        return Result(status, value, exc, oplog, rest[0] if rest else {})
 
     def _reap(self) -> None:
         if self.alive:
